@@ -118,10 +118,36 @@ pub fn run(ctx: &Ctx, rep: &mut Report, dir: &std::path::Path) {
                     ],
                 )],
             };
+            let mut am = am;
+            let clash = !ex && rng.chance(1, 3);
+            if clash {
+                // the second statement also claims the last output of the first one
+                let last_name = names[*e.iter().chain(i.iter()).last().unwrap()];
+                if let Stmt::Build { outs, .. } = &mut am.files[0].1[2] {
+                    let sp = if rng.chance(1, 2) { last_name.to_string() } else { respell(last_name, &mut rng) };
+                    outs.push(lit(&sp));
+                }
+            }
             let exp = evaluate(&am, true);
             let r = render(&am, &mut rng, rng_plain(idx));
             rep.evaluations += 1;
-            rep.count(if ex { "exhaustive_inputs" } else { "random_repeat_inputs" }, 1);
+            rep.count(if ex { "exhaustive_inputs" } else if clash { "repeat_then_clash_inputs" } else { "random_repeat_inputs" }, 1);
+            if clash {
+                let case = || J::obj().with("case", J::i(idx)).with("manifest", J::s(&r.files[0].1));
+                let (res, _printed) = capture_stdout(&mut tmp, || load_rendered(dir, &r));
+                match res {
+                    Err(p) => rep.violation(&format!("panic:{}", crate::sim::panic_sig(&p)), &p, case()),
+                    Ok(Ok(_)) => rep.violation("duplicate-output-accepted", "an output listed after a repeated one is also an output of a later statement, but the manifest loaded", case()),
+                    Ok(Err(e)) => {
+                        if !e.contains("already an output") {
+                            rep.violation("duplicate-output-diagnostic", &format!("{:?}", e), case());
+                        }
+                        rep.nontrivial.insert(fnv(r.files[0].1.as_bytes()));
+                    }
+                }
+                let _ = exp;
+                return;
+            }
             let case = || J::obj().with("case", J::i(idx)).with("manifest", J::s(&r.files[0].1));
             let (res, printed) = capture_stdout(&mut tmp, || load_rendered(dir, &r));
             match res {
@@ -176,8 +202,22 @@ pub fn run(ctx: &Ctx, rep: &mut Report, dir: &std::path::Path) {
             };
             let Some(victim) = victim else { return };
             let Part::Lit(vname) = &victim[0] else { return };
-            let canon = canon_ref(vname);
-            let dup = if rng.chance(1, 2) { canon.clone() } else { respell(&canon, &mut rng) };
+            let mut canon = canon_ref(vname);
+            let deep = rng.chance(1, 6);
+            if deep {
+                // more than 60 components: rename the victim itself to a deep path first
+                let prefix: String = (1..=rng.range(61, 90)).map(|k| format!("d{}/", k)).collect();
+                let deep_name = format!("{}{}", prefix, canon.replace('/', "_"));
+                if let Stmt::Build { outs, iouts, .. } = &mut am.files[pos[b1].0].1[pos[b1].1] {
+                    for e in outs.iter_mut().chain(iouts.iter_mut()) {
+                        if *e == victim {
+                            *e = lit(&deep_name);
+                        }
+                    }
+                }
+                canon = deep_name;
+            }
+            let dup = if rng.chance(1, 2) && !deep { canon.clone() } else { respell(&canon, &mut rng) };
             if let Stmt::Build { outs, iouts, .. } = &mut am.files[pos[b2].0].1[pos[b2].1] {
                 if rng.chance(1, 2) {
                     let at = rng.below(outs.len() + 1);
